@@ -6,11 +6,13 @@
    `pos = align<N>(pos)` statements, union discriminator + discpad + arm + slot. Proved: for every legal
    type and every well-typed object the bytes the C++ encoder leaves in a zeroed buffer with an aligned start
    are the canonical encoding, in either byte order — hence byte-identical to what the Python encoder (C01)
-   produces. Not covered by a theorem: the C++ *decoder* (checks/C03.py runs the compiled one on canonical
-   bytes), alignment<T>::value of classes holding a std::vector (known finding KF-A), over-full limited vectors. *)
+   produces; and the C++ decoder model (CppFull.cpp_decode, see props/C07.v) reads the canonical encoding of
+   every message without an unlimited part back exactly. Not covered by a theorem: decoding messages with a
+   greedy tail, alignment<T>::value of classes holding a std::vector (known finding KF-A), over-full limited
+   vectors; the compiled codec itself is exercised by checks/C03.py. *)
 From Coq Require Import ZArith List Bool Lia.
 From Prophy Require Import Bytes Schema Layout Wire Src PyStatics PyEncode PcModel CppFull
-  Arith SpecAlign Views SpecLen PyEncodeFacts PcFacts CppSizeFacts CppEncFacts.
+  Arith SpecAlign Views SpecLen PyEncodeFacts PcFacts CppSizeFacts CppEncFacts CppDecFacts CppDecRoundtrip.
 Import ListNotations.
 Local Open Scope Z_scope.
 
@@ -54,6 +56,27 @@ Proof.
   destruct (layout_lengths (TStruct fs) v Hl Hw) as [H1 _]. apply len_render. exact H1.
 Qed.
 Print Assumptions C03_bytes_written_is_get_byte_size.
+
+(* decode side: the generated C++ decoder (model, see props/C07.v) reads the canonical encoding of every
+   well-typed value of a message type without an unlimited part back, and consumes exactly all of it; so
+   C++ reads what Python wrote and what C++ itself wrote. (Messages with a greedy tail: differential run only.) *)
+Theorem C03_cpp_decodes_canonical :
+  forall e fs v, legal (TStruct fs) = true -> stiffness (TStruct fs) <> Unlimited -> wt (TStruct fs) v = true ->
+    len (wire e (TStruct fs) v) < 2 ^ 64 ->
+    cpp_decode e (TStruct fs) (wire e (TStruct fs) v) = CTrue v.
+Proof. exact cpp_decode_roundtrip. Qed.
+Print Assumptions C03_cpp_decodes_canonical.
+
+Theorem C03_cpp_reads_python :
+  forall e fs v b, legal (TStruct fs) = true -> stiffness (TStruct fs) <> Unlimited -> wt (TStruct fs) v = true ->
+    py_enc e (TStruct fs) v = Ok b -> len b < 2 ^ 64 ->
+    cpp_decode e (TStruct fs) b = CTrue v /\ cpp_encode e (TStruct fs) v = b.
+Proof.
+  intros e fs v b Hl Hu Hw Hb Hs.
+  rewrite (py_enc_canonical (TStruct fs) e v eq_refl Hl Hw) in Hb. injection Hb as <-.
+  split; [apply cpp_decode_roundtrip; assumption|apply C03_cpp_encode_canonical; assumption].
+Qed.
+Print Assumptions C03_cpp_reads_python.
 
 Example C03_example :
   let D := TStruct [(FPlain, TScalar U32); (FBound 0%nat, TScalar U8)] in
